@@ -10,6 +10,7 @@ reference (vf/refs/losses_ref.py).
 from __future__ import annotations
 
 import itertools
+import math
 
 import numpy as np
 
@@ -214,10 +215,52 @@ def build(name, o):
     raise ValueError(name)
 
 
+def large_likelihood_case(case):
+    """Likelihood loss on series long enough that real length x simulated length x ensemble x coordinates passes 2**24 (a blocked or
+    sub-sampled evaluation would only be taken there). Reference: the definition, one (T x S) matrix per ensemble member."""
+    from black_it.loss_functions.likelihood import LikelihoodLoss
+
+    R_, N, D, h = case["R"], case["N"], case["D"], case["h"]
+    s_ = np.arange(N, dtype=float)
+    sim = np.stack([np.stack([np.sin(0.37 * s_ + r + d) + 0.1 * ((s_ * 7 + d) % 11) / 11.0 for d in range(D)], axis=1) for r in range(R_)], axis=0)
+    real = np.stack([np.cos(0.23 * s_ + d) * 0.9 for d in range(D)], axis=1)
+    got = float(LikelihoodLoss(h=h).compute_loss(sim.copy(), real.copy()))
+    hh = ((N * (D + 2)) / 4.0) ** (-1.0 / (D + 4)) if h == "silverman" else N ** (-1.0 / (D + 4)) if h == "scott" else float(h)
+    total = 0.0
+    for r in range(R_):
+        q = np.zeros((N, N))
+        for d in range(D):
+            q += (sim[r, :, d][None, :] - real[:, d][:, None]) ** 2
+        dens = np.sum(np.exp(-(q / D) / (2 * hh * hh)), axis=1) / (N * hh ** D * (2 * math.pi) ** (D / 2.0))
+        total += float(np.sum(np.log(dens)))
+    ref = -total / R_
+    if not close(got, ref, 1e-9):
+        return [("likelihood-value", f"LikelihoodLoss(h={h!r}) on ensemble {R_} x length {N} x {D} coordinate(s) (R*T*S*D = {R_ * N * N * D} vs 2**24 = {2**24}): {got!r}, the definition gives {ref!r}")]
+    return []
+
+
+def large_cell(cell):
+    res = {"evaluations": 0, "nontrivial": 0, "states": 0, "transitions": 0, "traces": 0, "stats": {}, "outcomes": set(), "violations": [], "samples": []}
+    for case in cell["cases"]:
+        vs = large_likelihood_case(case)
+        res["evaluations"] += 1
+        res["nontrivial"] += 1
+        res["transitions"] += 1
+        res["traces"] += 1
+        res["stats"]["large_likelihood_cases"] = res["stats"].get("large_likelihood_cases", 0) + 1
+        for key, what in vs:
+            if sum(1 for x in res["violations"] if x["key"] == key) < 1:
+                res["violations"].append({"key": key, "what": what, "case": dict(case, large=True)})
+    res["states"] = res["evaluations"]
+    return res
+
+
 def run_cell(cell):
     import warnings
 
     warnings.filterwarnings("ignore")
+    if cell.get("kind") == "large":
+        return large_cell(cell)
     res = {"evaluations": 0, "nontrivial": 0, "states": 0, "transitions": 0, "traces": 0, "stats": {}, "outcomes": set(), "violations": [], "samples": []}
     for name, o in cell["options"]:
         impl, ref, tol, classify = build(name, o)
@@ -242,6 +285,8 @@ def run_cell(cell):
 
 
 def replay_case(case):
+    if case.get("large"):
+        return [{"key": k, "what": w} for k, w in large_likelihood_case(case)]
     o_full = case["opts"]
     dt = np.int64 if o_full.get("sim_dtype") == "int64" else float
     o = {k: v for k, v in o_full.items() if k != "sim_dtype"}
@@ -300,7 +345,11 @@ def main(ctx):
             parts = 1
         for p in range(parts):
             cells.append({"options": [(name, o)], "Ts": Ts, "tier": ctx.tier, "part": p, "parts": parts})
-    ctx.bounds = {"option_vectors": len(option_lattice(ctx.tier)), "lengths": "3,4,5 (Minkowski/Fourier/likelihood), 4,5,8 (GSL), 8,9 (moments)", "ensemble": [1, 2, 3], "coordinates": [1, 2],
+    big = [{"R": r, "N": n, "D": d, "h": h} for (r, n, d) in ((1, 4096, 1), (1, 4097, 1), (1, 4100, 1), (2, 2900, 1), (1, 2900, 2)) + (() if ctx.quick else ((3, 2500, 2), (2, 5000, 1)))
+           for h in ("silverman", "scott", 0.5)]
+    for i in range(0, len(big), 3):
+        cells.append({"kind": "large", "cases": big[i:i + 3]})
+    ctx.bounds = {"large_likelihood": "ensemble x length x coordinates with R*T*S*D on both sides of 2**24, three bandwidth rules", "option_vectors": len(option_lattice(ctx.tier)), "lengths": "3,4,5 (Minkowski/Fourier/likelihood), 4,5,8 (GSL), 8,9 (moments)", "ensemble": [1, 2, 3], "coordinates": [1, 2],
                   "value_alphabets": ["{0,1}^T (all)", "6 shapes over {0,1,2}", "6 shapes over 12 levels"], "tolerance": "1e-9 relative (GSL 1e-12, moments 1e-8)"}
     ctx.rule = "every (option vector, data case) pair; one loss object per option vector over the interleaved sweep; non-trivial = non-constant simulated data or more than one ensemble member"
     ctx.assumptions = ["reference models in vf/refs/losses_ref.py written from the documented definitions", "inputs on which the definition is undefined (0/0 standardisation, zero Gaussian width, base-1 logarithm) are skipped and counted"]
